@@ -9,9 +9,18 @@
 //!                                           c = the pattern compiles, m = it matches the left string
 //!                                           (the regex engine's verdict; the Lean driver has no engine)
 //!   (filter is_null <v>) (filter is_not_null <v>)
+//!   (tagged-stream <op> <pair>…)            a whole stream of contexts through ONE call of the real
+//!                                           `apply_filter_with_tagged_argument_value`; <pair> is
+//!                                           `(p <left> <right|none>)` for the plain binary operators,
+//!                                           `(p <left> <right|none> <c> <m>)` for regex_slow /
+//!                                           not_regex_slow; `none` = TaggedValue::NonexistentOptional
+//!   (static-stream <op> <right> <left>…)    a stream of left values against one variable value through
+//!   (static-stream <op> <right> <c> (h <left> <m>)…)   ONE `apply_filter_with_static_argument_value`
+//!                                           call (second form: regex_opt / not_regex_opt)
 //! Answers: `1`, `0`, `panic` (and `mismatch:…` when the code paths of the implementation that must
-//! select the same operator function disagree with each other).
-use std::collections::{BTreeMap, HashMap};
+//! select the same operator function disagree with each other); streams: `(bits b…)`, one bit per
+//! context in stream order (1 = the context survived the stage), or `panic`.
+use std::collections::{BTreeMap, HashMap, HashSet};
 use std::sync::{Arc, OnceLock};
 
 use regex::Regex;
@@ -181,6 +190,165 @@ fn eval_request(op: &str, args: &[Sexp]) -> Option<String> {
         }
         _ => None,
     }
+}
+
+// ---------------------------------------------------------------------------------------------
+// streams: many contexts through ONE filter stage
+
+const TAGGED_REGEX_OPS: [&str; 2] = ["regex_slow", "not_regex_slow"];
+const STATIC_REGEX_OPS: [&str; 2] = ["regex_opt", "not_regex_opt"];
+
+/// A parsed `tagged-stream` / `static-stream` request (regex bits already checked against the
+/// engine).
+struct StreamReq {
+    tagged: bool,
+    op: String,
+    /// the one right operand of a static stream
+    static_right: Option<FieldValue>,
+    /// (left, right); `None` = nonexistent optional (tagged streams only)
+    pairs: Vec<(FieldValue, Option<FieldValue>)>,
+}
+
+fn pattern_compiles(r: &FieldValue) -> bool {
+    matches!(r, FieldValue::String(p) if Regex::new(p).is_ok())
+}
+
+fn right_operand(s: &Sexp) -> Option<Option<FieldValue>> {
+    if s.as_atom() == Some("none") { Some(None) } else { Some(Some(sexp_to_value(s)?)) }
+}
+
+fn parse_stream(request: &Sexp) -> Option<StreamReq> {
+    let (h, args) = request.as_call()?;
+    let (op, rest) = args.split_first()?;
+    let op = op.as_atom()?;
+    match h {
+        "tagged-stream" => {
+            let is_regex = TAGGED_REGEX_OPS.contains(&op);
+            if !is_regex {
+                plain_op(op)?;
+            }
+            let mut pairs = vec![];
+            for p in rest {
+                let (ph, pa) = p.as_call()?;
+                if ph != "p" {
+                    return None;
+                }
+                match (is_regex, pa) {
+                    (false, [l, r]) => pairs.push((sexp_to_value(l)?, right_operand(r)?)),
+                    (true, [l, r, c, m]) => {
+                        let (l, r) = (sexp_to_value(l)?, right_operand(r)?);
+                        let (compiles, matches) = match &r {
+                            Some(r) => regex_bits(&l, r),
+                            None => (false, false),
+                        };
+                        if c.as_atom()? != bit(compiles) || m.as_atom()? != bit(matches) {
+                            return None;
+                        }
+                        pairs.push((l, r));
+                    }
+                    _ => return None,
+                }
+            }
+            Some(StreamReq { tagged: true, op: op.to_string(), static_right: None, pairs })
+        }
+        "static-stream" => {
+            let is_regex = STATIC_REGEX_OPS.contains(&op);
+            if !is_regex {
+                plain_op(op)?;
+            }
+            let (r, mut lefts) = rest.split_first()?;
+            let r = sexp_to_value(r)?;
+            let mut pairs = vec![];
+            if is_regex {
+                let (c, ls) = lefts.split_first()?;
+                if c.as_atom()? != bit(pattern_compiles(&r)) {
+                    return None;
+                }
+                lefts = ls;
+                for x in lefts {
+                    let (xh, xa) = x.as_call()?;
+                    let [l, m] = xa else { return None };
+                    if xh != "h" {
+                        return None;
+                    }
+                    let l = sexp_to_value(l)?;
+                    if m.as_atom()? != bit(regex_bits(&l, &r).1) {
+                        return None;
+                    }
+                    pairs.push((l, Some(r.clone())));
+                }
+            } else {
+                for x in lefts {
+                    pairs.push((sexp_to_value(x)?, Some(r.clone())));
+                }
+            }
+            Some(StreamReq { tagged: false, op: op.to_string(), static_right: Some(r), pairs })
+        }
+        _ => None,
+    }
+}
+
+fn render_stream(tagged: bool, op: &str, static_right: Option<&FieldValue>, pairs: &[(FieldValue, Option<FieldValue>)]) -> Sexp {
+    let mut args = vec![Sexp::atom(op)];
+    if tagged {
+        let is_regex = TAGGED_REGEX_OPS.contains(&op);
+        for (l, r) in pairs {
+            let mut p = vec![value_to_sexp_exact(l), r.as_ref().map(value_to_sexp_exact).unwrap_or(Sexp::atom("none"))];
+            if is_regex {
+                let (c, m) = r.as_ref().map(|r| regex_bits(l, r)).unwrap_or((false, false));
+                p.push(Sexp::atom(bit(c)));
+                p.push(Sexp::atom(bit(m)));
+            }
+            args.push(Sexp::call("p", p));
+        }
+        Sexp::call("tagged-stream", args)
+    } else {
+        let r = static_right.expect("static stream without a right operand");
+        args.push(value_to_sexp_exact(r));
+        if STATIC_REGEX_OPS.contains(&op) {
+            args.push(Sexp::atom(bit(pattern_compiles(r))));
+            for (l, _) in pairs {
+                args.push(Sexp::call("h", vec![value_to_sexp_exact(l), Sexp::atom(bit(regex_bits(l, r).1))]));
+            }
+        } else {
+            for (l, _) in pairs {
+                args.push(value_to_sexp_exact(l));
+            }
+        }
+        Sexp::call("static-stream", args)
+    }
+}
+
+fn render_bits(bits: &[bool]) -> String {
+    let mut s = String::from("(bits");
+    for b in bits {
+        s.push_str(if *b { " 1" } else { " 0" });
+    }
+    s.push(')');
+    s
+}
+
+/// ALL pairs of the request through ONE call of the real filter stage.
+fn eval_stream(sr: &StreamReq) -> Option<String> {
+    let operation = operation(&sr.op)?;
+    let bits = if sr.tagged {
+        hooks::apply_tagged_stream(&operation, sr.pairs.clone())
+    } else {
+        let lefts = sr.pairs.iter().map(|(l, _)| l.clone()).collect();
+        hooks::apply_static_stream(&operation, sr.static_right.clone()?, lefts)
+    };
+    Some(render_bits(&bits))
+}
+
+/// The single-pair request whose answer position `i` of a stream must repeat.
+fn pair_request(op: &str, lv: &FieldValue, rv: &FieldValue) -> Sexp {
+    let mut args = vec![Sexp::atom(op), value_to_sexp_exact(lv), value_to_sexp_exact(rv)];
+    if REGEX_OPS.contains(&op) {
+        let (c, m) = regex_bits(lv, rv);
+        args.push(Sexp::atom(bit(c)));
+        args.push(Sexp::atom(bit(m)));
+    }
+    Sexp::call("filter", args)
 }
 
 // ---------------------------------------------------------------------------------------------
@@ -442,16 +610,13 @@ fn random_float(rng: &mut Rng) -> FieldValue {
 
 struct Gen {
     out: Vec<Case>,
+    /// single-pair requests already emitted for some stream
+    stream_pairs_seen: HashSet<String>,
 }
 
 impl Gen {
     fn push(&mut self, op: &str, lv: &FieldValue, rv: &FieldValue, stream: &str) {
-        let mut args = vec![Sexp::atom(op), value_to_sexp_exact(lv), value_to_sexp_exact(rv)];
-        if REGEX_OPS.contains(&op) {
-            let (c, m) = regex_bits(lv, rv);
-            args.push(Sexp::atom(bit(c)));
-            args.push(Sexp::atom(bit(m)));
-        }
+        let request = pair_request(op, lv, rv);
         let class = classify(op, lv, rv);
         let kinds = format!("{}-{}", kind_name(lv), kind_name(rv));
         let opk = format!("op:{op}");
@@ -475,7 +640,30 @@ impl Gen {
         if num(lv).is_some() && num(rv).is_some() && kind_name(lv) != kind_name(rv) {
             tags.push("mixed-int-representation");
         }
-        self.out.push(Case::new(Sexp::call("filter", args), &tags));
+        self.out.push(Case::new(request, &tags));
+    }
+    /// A stream request, preceded by the single-pair requests its positions must repeat (those not
+    /// yet emitted by this generator run).
+    fn push_stream(
+        &mut self,
+        tagged: bool,
+        op: &str,
+        static_right: Option<&FieldValue>,
+        pairs: &[(FieldValue, Option<FieldValue>)],
+        family: &str,
+    ) {
+        for (l, r) in pairs {
+            if let Some(r) = r {
+                if self.stream_pairs_seen.insert(pair_request(op, l, r).to_string()) {
+                    self.push(op, l, r, "stream-pairs");
+                }
+            }
+        }
+        let opk = format!("op:{op}");
+        let lenk = format!("stream-len:{}", pairs.len());
+        let tags: Vec<&str> =
+            vec!["streams", family, &opk, &lenk, if tagged { "path:tagged" } else { "path:static" }];
+        self.out.push(Case::new(render_stream(tagged, op, static_right, pairs), &tags));
     }
     fn push_unary(&mut self, op: &str, v: &FieldValue, stream: &str) {
         let opk = format!("op:{op}");
@@ -496,16 +684,256 @@ fn kind_class(v: &FieldValue) -> u8 {
     }
 }
 
+// ---------------------------------------------------------------------------------------------
+// stream generation
+
+fn strs(xs: &[&str]) -> Vec<FieldValue> {
+    xs.iter().map(|s| FieldValue::from(*s)).collect()
+}
+
+const VALID_PATTERNS: [&str; 10] = ["a", "^a", "b$", ".*", "(a|b)+", "a.c", "\\d+", "(?i)A", "a{2}", ""];
+/// none of these compiles
+const INVALID_PATTERNS: [&str; 6] = ["(", "[a", "*", "\\", "a{2,1}", "(?P<n>"];
+const HAYSTACKS: [&str; 10] = ["", "a", "ab", "b", "A", "a.c", "aa", "ba", "é", "12"];
+
+/// (left pool, right pool) of typed operands for one operator (the ordering operators pick one
+/// orderable kind per stream).
+fn stream_pools(op: &str, rng: &mut Rng) -> (Vec<FieldValue>, Vec<FieldValue>) {
+    let null = FieldValue::Null;
+    let with_null = |mut v: Vec<FieldValue>| {
+        v.push(null.clone());
+        v
+    };
+    match op {
+        "eq" | "neq" => (scalar_pool(), scalar_pool()),
+        "lt" | "le" | "gt" | "ge" => {
+            let kind = match rng.below(3) {
+                0 => boundary_ints(),
+                1 => boundary_floats(),
+                _ => boundary_strings(),
+            };
+            (with_null(kind.clone()), with_null(kind))
+        }
+        "one_of" | "not_one_of" | "contains" | "not_contains" => {
+            let pool = scalar_pool();
+            let mut elems = pool.clone();
+            elems.extend(nested_lists());
+            let colls = with_null(list_pool(&pool));
+            if op.ends_with("one_of") { (elems, colls) } else { (colls, elems) }
+        }
+        "regex_slow" | "not_regex_slow" | "regex_opt" | "not_regex_opt" => {
+            let mut rights = strs(&VALID_PATTERNS);
+            rights.extend(strs(&INVALID_PATTERNS));
+            if op.ends_with("_slow") {
+                rights.push(null.clone());
+            }
+            (with_null(strs(&HAYSTACKS)), rights)
+        }
+        _ => {
+            let mut s = boundary_strings();
+            s.extend(strs(&HAYSTACKS));
+            (with_null(s.clone()), with_null(s))
+        }
+    }
+}
+
+/// The next right operand of a regex stream: valid and invalid patterns alternate often, so that
+/// valid→invalid→valid sequences (and invalid→valid→invalid) are the norm.
+fn next_pattern(rng: &mut Rng, previous_valid: Option<bool>, allow_null: bool) -> FieldValue {
+    let valid = match previous_valid {
+        Some(v) => {
+            if rng.chance(3, 4) {
+                !v
+            } else {
+                v
+            }
+        }
+        None => rng.chance(2, 3),
+    };
+    if allow_null && rng.chance(1, 10) {
+        FieldValue::Null
+    } else if valid {
+        FieldValue::from(*rng.pick(&VALID_PATTERNS))
+    } else {
+        FieldValue::from(*rng.pick(&INVALID_PATTERNS))
+    }
+}
+
+fn generate_streams(g: &mut Gen, quick: bool, rng: &mut Rng) {
+    let null = FieldValue::Null;
+    let plain: Vec<&str> = ORD_OPS
+        .iter()
+        .chain(&EQ_OPS)
+        .chain(&STRING_OPS)
+        .chain(&ONE_OF_OPS)
+        .chain(&CONTAINS_OPS)
+        .copied()
+        .collect();
+    let tagged_ops: Vec<&str> = plain.iter().chain(&TAGGED_REGEX_OPS).copied().collect();
+    let static_ops: Vec<&str> = plain.iter().chain(&STATIC_REGEX_OPS).copied().collect();
+
+    // ---- directed: tagged regex, a valid pattern, then one that does not compile, then a valid one
+    // again, the haystack held fixed (a stage that keeps anything of the previous pattern shows here)
+    let valid = ["a", "^a", ".*", "b$"];
+    let invalid = ["(", "[a", "*", "\\"];
+    for op in TAGGED_REGEX_OPS {
+        for (k, v) in valid.iter().enumerate() {
+            for i in invalid {
+                for h in ["a", "ab", "b"] {
+                    let (h, v, i) = (FieldValue::from(h), FieldValue::from(*v), FieldValue::from(i));
+                    let v2 = FieldValue::from(valid[(k + 1) % valid.len()]);
+                    let some = |x: &FieldValue| Some(x.clone());
+                    g.push_stream(
+                        true,
+                        op,
+                        None,
+                        &[(h.clone(), some(&v)), (h.clone(), some(&i)), (h.clone(), some(&v))],
+                        "stream:valid-invalid-valid",
+                    );
+                    g.push_stream(
+                        true,
+                        op,
+                        None,
+                        &[
+                            (h.clone(), some(&v)),
+                            (h.clone(), some(&v)),
+                            (h.clone(), some(&i)),
+                            (h.clone(), some(&i)),
+                            (h.clone(), None),
+                            (h.clone(), some(&i)),
+                            (h.clone(), some(&v2)),
+                            (h.clone(), some(&null)),
+                        ],
+                        "stream:valid-invalid-valid",
+                    );
+                    g.push_stream(
+                        true,
+                        op,
+                        None,
+                        &[(h.clone(), some(&i)), (h.clone(), some(&v)), (null.clone(), some(&v)), (h.clone(), some(&i))],
+                        "stream:valid-invalid-valid",
+                    );
+                }
+            }
+        }
+    }
+    // ---- directed: streams of length 0 and 1 (incl. a lone nonexistent-optional entry), and the
+    // variable-path regex stage built over no context at all
+    for op in &tagged_ops {
+        let (ls, rs) = stream_pools(op, rng);
+        g.push_stream(true, op, None, &[], "stream:short");
+        g.push_stream(true, op, None, &[(rng.pick(&ls).clone(), None)], "stream:short");
+        g.push_stream(true, op, None, &[(rng.pick(&ls).clone(), Some(rng.pick(&rs).clone()))], "stream:short");
+    }
+    for op in &static_ops {
+        let (ls, rs) = stream_pools(op, rng);
+        let r = rng.pick(&rs).clone();
+        g.push_stream(false, op, Some(&r), &[], "stream:short");
+        g.push_stream(false, op, Some(&r), &[(rng.pick(&ls).clone(), Some(r.clone()))], "stream:short");
+    }
+    for op in STATIC_REGEX_OPS {
+        for p in ["a", "(", ""] {
+            g.push_stream(false, op, Some(&FieldValue::from(p)), &[], "stream:short");
+        }
+    }
+    // ---- directed: a panic anywhere in the stream is the answer of the whole call
+    let li = |n: i64| l(vec![FieldValue::Int64(n)]);
+    g.push_stream(
+        true,
+        "lt",
+        None,
+        &[
+            (FieldValue::Int64(1), Some(FieldValue::Int64(2))),
+            (li(1), Some(li(2))),
+            (FieldValue::Int64(3), Some(FieldValue::Int64(2))),
+        ],
+        "stream:panic-inside",
+    );
+    g.push_stream(
+        true,
+        "has_prefix",
+        None,
+        &[
+            (FieldValue::from("ab"), Some(FieldValue::from("a"))),
+            (FieldValue::from("ab"), None),
+            (FieldValue::Int64(1), Some(FieldValue::from("a"))),
+        ],
+        "stream:panic-inside",
+    );
+    g.push_stream(
+        false,
+        "ge",
+        Some(&li(1)),
+        &[(null.clone(), Some(li(1))), (li(2), Some(li(1)))],
+        "stream:panic-inside",
+    );
+
+    // ---- random: 2–8 contexts, right operands repeated in runs
+    let per_op = if quick { 40 } else { 1_500 };
+    for op in &tagged_ops {
+        let is_regex = TAGGED_REGEX_OPS.contains(op);
+        for _ in 0..per_op {
+            let (ls, rs) = stream_pools(op, rng);
+            let n = 2 + rng.below(7);
+            let mut pairs: Vec<(FieldValue, Option<FieldValue>)> = vec![];
+            let mut previous_valid: Option<bool> = None;
+            let mut held: Option<FieldValue> = None;
+            while pairs.len() < n {
+                let r = if rng.chance(1, 8) {
+                    None
+                } else if is_regex {
+                    let p = next_pattern(rng, previous_valid, true);
+                    if !matches!(p, FieldValue::Null) {
+                        previous_valid = Some(pattern_compiles(&p));
+                    }
+                    Some(p)
+                } else {
+                    Some(rng.pick(&rs).clone())
+                };
+                for _ in 0..1 + rng.below(3) {
+                    if pairs.len() == n {
+                        break;
+                    }
+                    // half of the time the left value of the previous context comes again
+                    let left = match &held {
+                        Some(h) if rng.chance(1, 2) => h.clone(),
+                        _ => rng.pick(&ls).clone(),
+                    };
+                    held = Some(left.clone());
+                    pairs.push((left, r.clone()));
+                }
+            }
+            g.push_stream(true, op, None, &pairs, "stream:random");
+        }
+    }
+    for op in &static_ops {
+        let is_regex = STATIC_REGEX_OPS.contains(op);
+        for _ in 0..per_op {
+            let (ls, rs) = stream_pools(op, rng);
+            let r = if is_regex {
+                // mostly patterns that compile: the others panic while the stage is built (F-4)
+                if rng.chance(7, 8) { FieldValue::from(*rng.pick(&VALID_PATTERNS)) } else { FieldValue::from(*rng.pick(&INVALID_PATTERNS)) }
+            } else {
+                rng.pick(&rs).clone()
+            };
+            let n = 2 + rng.below(7);
+            let pairs: Vec<(FieldValue, Option<FieldValue>)> =
+                (0..n).map(|_| (rng.pick(&ls).clone(), Some(r.clone()))).collect();
+            g.push_stream(false, op, Some(&r), &pairs, "stream:random");
+        }
+    }
+}
+
 impl Prop for C07 {
     fn id(&self) -> &'static str {
         "C07"
     }
     fn rule(&self) -> &'static str {
-        "Streams: (grid) every ordered pair of the scalar boundary pool (null, booleans, 9 signed + 9 unsigned integer boundary points incl. i64::MIN, i64::MAX±1, u64::MAX, 13 finite floats incl. ±0 and subnormals, 14 strings, 2 enums) under eq/neq; every same-orderable-kind-or-null pair under lt/le/gt/ge; (string-or-null)² under the six prefix/suffix/substring operators; (string-or-null) × (patterns that compile, patterns that do not, null) under the four regex forms; pool × (null, [], all singletons, mixed-representation integer lists, lists with nulls, nested lists) under one_of/not_one_of and mirrored under contains/not_contains; is_null/is_not_null on everything. (kinds) one representative per value kind, all 8×8 pairs under every binary operator: the pairs the frontend's typing refuses are tagged `untyped` — the implementation has unreachable! there, the model must answer `panic` too, and the definition oracle is not applied. (list-ordering) lt/le/gt/ge on null-free lists of one orderable type, tagged `typed-list-ordering`: admitted by the frontend (is_orderable looks at the base type name), documented as lexicographic, the implementation panics (F-5). (random) seeded pairs: 64-bit integers in random representation incl. near pairs n, n+δ (|δ|≤2) across the signed/unsigned boundary; floats; short strings over a small alphabet with multi-byte characters (so that prefix/suffix/substring/order relations hold non-trivially often); random nested values against a copy with every integer switched to its other representation (must be equal) and against unrelated values. Each binary request is evaluated on the real code three ways that must select the same operator function — `apply_filter_with_static_argument_value` (variable argument), `apply_filter_with_tagged_argument_value` (tag argument), both through add-only hooks that run the real dispatch table with its `not!` negations on a one-context iterator, and the operator function itself (negated forms: `!positive`) — any difference is the answer `mismatch:…`. regex_opt goes through the real static dispatch, so `Regex::new(..).expect(..)` is the real line 460/466 (nothing is transcribed); regex_slow through the tagged dispatch. The two regex bits in a request are the regex crate's verdict (checked again at evaluation; inconsistent bits answer bad-op). ORACLE, on every typed request: the mathematical definition computed in the harness (i128 integer comparison, float keys, byte-wise string comparison / prefix / suffix / window search, structural list equality with numeric integers, one_of/contains as existence of an equal element, regex: engine's answer, invalid pattern or null ⇒ false) must equal the implementation's answer (`<op>-wrong`); a panic on a typed request is `panic@file:message`; every negated request is also compared with its positive twin in the same run (`neg-not-complement`). A case is non-trivial (`nt:payload-decides`) when it is typed, no operand is null and the operands are of one kind class (or the operator is a collection operator), i.e. the answer is decided by comparing payloads rather than by a null short-circuit or a discriminant mismatch."
+        "Streams: (grid) every ordered pair of the scalar boundary pool (null, booleans, 9 signed + 9 unsigned integer boundary points incl. i64::MIN, i64::MAX±1, u64::MAX, 13 finite floats incl. ±0 and subnormals, 14 strings, 2 enums) under eq/neq; every same-orderable-kind-or-null pair under lt/le/gt/ge; (string-or-null)² under the six prefix/suffix/substring operators; (string-or-null) × (patterns that compile, patterns that do not, null) under the four regex forms; pool × (null, [], all singletons, mixed-representation integer lists, lists with nulls, nested lists) under one_of/not_one_of and mirrored under contains/not_contains; is_null/is_not_null on everything. (kinds) one representative per value kind, all 8×8 pairs under every binary operator: the pairs the frontend's typing refuses are tagged `untyped` — the implementation has unreachable! there, the model must answer `panic` too, and the definition oracle is not applied. (list-ordering) lt/le/gt/ge on null-free lists of one orderable type, tagged `typed-list-ordering`: admitted by the frontend (is_orderable looks at the base type name), documented as lexicographic, the implementation panics (F-5). (random) seeded pairs: 64-bit integers in random representation incl. near pairs n, n+δ (|δ|≤2) across the signed/unsigned boundary; floats; short strings over a small alphabet with multi-byte characters (so that prefix/suffix/substring/order relations hold non-trivially often); random nested values against a copy with every integer switched to its other representation (must be equal) and against unrelated values. Each binary request is evaluated on the real code three ways that must select the same operator function — `apply_filter_with_static_argument_value` (variable argument), `apply_filter_with_tagged_argument_value` (tag argument), both through add-only hooks that run the real dispatch table with its `not!` negations on a one-context iterator, and the operator function itself (negated forms: `!positive`) — any difference is the answer `mismatch:…`. regex_opt goes through the real static dispatch, so `Regex::new(..).expect(..)` is the real line 460/466 (nothing is transcribed); regex_slow through the tagged dispatch. The two regex bits in a request are the regex crate's verdict (checked again at evaluation; inconsistent bits answer bad-op). ORACLE, on every typed request: the mathematical definition computed in the harness (i128 integer comparison, float keys, byte-wise string comparison / prefix / suffix / window search, structural list equality with numeric integers, one_of/contains as existence of an equal element, regex: engine's answer, invalid pattern or null ⇒ false) must equal the implementation's answer (`<op>-wrong`); a panic on a typed request is `panic@file:message`; every negated request is also compared with its positive twin in the same run (`neg-not-complement`). (streams) STATELESSNESS OF THE STAGE: `(tagged-stream op (p l r|none)…)` pushes ALL its contexts through ONE call of the real `apply_filter_with_tagged_argument_value` (hook `apply_tagged_stream`: context i carries l_i, the tag value is `TaggedValue::Some(r_i)` or, for `none`, `TaggedValue::NonexistentOptional`; the surviving contexts are identified by an index carried as their active vertex) and `(static-stream op r l…)` one call of `apply_filter_with_static_argument_value`; the answer is one bit per context. For every binary operator on both paths (tag path: the 16 plain operators + regex_slow/not_regex_slow; variable path: + regex_opt/not_regex_opt): random streams of 2–8 contexts drawn from the typed operand pools of the operator, the right operand repeated in runs of 1–3, the previous left value repeated half of the time, `none` entries (1/8) and null rights; for the regex forms the patterns alternate between ones that compile and ones that do not (`(`, `[a`, `*`, `\\`, `a{2,1}`, `(?P<n>`), plus the directed family valid→invalid→valid / valid,valid,invalid,invalid,none,invalid,valid',null / invalid,valid,valid,invalid with the haystack held fixed over 4 valid × 4 invalid patterns × 3 haystacks; streams of length 0 and 1; the variable-path regex stage built over no context (a pattern that does not compile panics there, F-4); streams with a panicking pair inside (the whole call panics). Every pair of a stream is also sent as a single-pair `filter` request (stream `stream-pairs`). ORACLE on the implementation: the stream's answer must be, position by position, the answer of the single-pair request of that position (`none`: 1), `panic` iff some pair panics (`stream-differs-from-pairwise`) — so what the definition oracle establishes pair by pair holds of the stage over a stream, and a stage that carries anything from one context to the next (a cached compiled pattern, a remembered operand) fails. A stream is non-trivial (`nt:stream-state`) when it has at least two distinct right operands, at least one survivor and at least one non-survivor (static streams: `nt:stream-static-mixed`, a survivor and a non-survivor). A case is non-trivial (`nt:payload-decides`) when it is typed, no operand is null and the operands are of one kind class (or the operator is a collection operator), i.e. the answer is decided by comparing payloads rather than by a null short-circuit or a discriminant mismatch."
     }
     fn generate(&self, tier: Tier, rng: &mut Rng) -> Vec<Case> {
         let quick = tier == Tier::Quick;
-        let mut g = Gen { out: vec![] };
+        let mut g = Gen { out: vec![], stream_pairs_seen: HashSet::new() };
         let pool = scalar_pool();
         let ints = boundary_ints();
         let floats = boundary_floats();
@@ -675,10 +1103,14 @@ impl Prop for C07 {
                 g.push(op, &coll2, &a, "random-value");
             }
         }
+        generate_streams(&mut g, quick, rng);
         g.out
     }
     fn eval(&self, request: &Sexp) -> Option<String> {
         let (h, args) = request.as_call()?;
+        if h == "tagged-stream" || h == "static-stream" {
+            return eval_stream(&parse_stream(request)?);
+        }
         if h != "filter" {
             return None;
         }
@@ -700,6 +1132,77 @@ impl Prop for C07 {
         for e in evaluated {
             if let Some((op, operands)) = split_request(&e.request) {
                 by_req.insert((op, operands), e);
+            }
+        }
+        // streams: position i of ONE call of the stage over the whole stream must repeat the answer
+        // of the single-pair request for pair i
+        for e in evaluated {
+            let Some((h, _)) = e.request.as_call() else { continue };
+            if h != "tagged-stream" && h != "static-stream" {
+                continue;
+            }
+            let Some(sr) = parse_stream(&e.request) else {
+                fail("malformed-request".into(), e.answer.clone(), vec![e.line.clone()]);
+                continue;
+            };
+            // (answer, request line) per position; a nonexistent-optional tag passes the context
+            let mut pairwise: Vec<(String, Option<String>)> = vec![];
+            for (lv, rv) in &sr.pairs {
+                let Some(rv) = rv else {
+                    pairwise.push(("1".into(), None));
+                    continue;
+                };
+                let req = pair_request(&sr.op, lv, rv);
+                let line = req.to_string();
+                let answer = match split_request(&req).and_then(|k| by_req.get(&k)) {
+                    Some(pe) => pe.answer.clone(),
+                    // not in this run (replay of the stream line alone): ask the implementation now
+                    None => match guarded(|| self.eval(&req)) {
+                        Ok(Some(a)) => a,
+                        Ok(None) => "bad-op".into(),
+                        Err(_) => "panic".into(),
+                    },
+                };
+                pairwise.push((answer, Some(line)));
+            }
+            if pairwise.iter().any(|(a, _)| a != "0" && a != "1" && a != "panic") {
+                continue; // the pair request itself is reported (paths-disagree / malformed-request)
+            }
+            // the variable-path regex stage compiles its pattern while it is built: a pattern that
+            // does not compile panics whatever the stream is (F-4, reported on the pair requests)
+            let built_panics =
+                !sr.tagged && STATIC_REGEX_OPS.contains(&sr.op.as_str()) && !sr.static_right.as_ref().is_some_and(pattern_compiles);
+            let expected = if built_panics || pairwise.iter().any(|(a, _)| a == "panic") {
+                "panic".to_string()
+            } else {
+                render_bits(&pairwise.iter().map(|(a, _)| a == "1").collect::<Vec<_>>())
+            };
+            if e.answer != expected {
+                let got: Vec<&str> = e.answer.trim_start_matches("(bits").trim_end_matches(')').split_whitespace().collect();
+                let mut requests = vec![e.line.clone()];
+                let mut positions = vec![];
+                for (i, (a, line)) in pairwise.iter().enumerate() {
+                    if got.get(i).copied() != Some(a.as_str()) && positions.len() < 3 {
+                        positions.push(i.to_string());
+                        if let Some(line) = line {
+                            if !requests.contains(line) {
+                                requests.push(line.clone());
+                            }
+                        }
+                    }
+                }
+                fail(
+                    "stream-differs-from-pairwise".into(),
+                    format!(
+                        "op={} path={} one call of the stage over the stream answered {} but pair by pair the answers are {} (first differing positions: {})",
+                        sr.op,
+                        if sr.tagged { "tagged" } else { "static" },
+                        e.answer,
+                        expected,
+                        positions.join(" ")
+                    ),
+                    requests,
+                );
             }
         }
         for e in evaluated {
@@ -754,8 +1257,30 @@ impl Prop for C07 {
         fails
     }
     fn post_tags(&self, e: &Evaluated) -> Vec<String> {
-        let a = if e.answer.starts_with("mismatch") { "mismatch" } else { e.answer.as_str() };
-        vec![format!("answer:{a}")]
+        let a = if e.answer.starts_with("mismatch") {
+            "mismatch"
+        } else if e.answer.starts_with("(bits") {
+            "bits"
+        } else {
+            e.answer.as_str()
+        };
+        let mut tags = vec![format!("answer:{a}")];
+        if a == "bits" {
+            if let Some(sr) = parse_stream(&e.request) {
+                let survivors = e.answer.contains('1');
+                let dropped = e.answer.contains('0');
+                let rights: HashSet<String> =
+                    sr.pairs.iter().filter_map(|(_, r)| r.as_ref()).map(|r| value_to_sexp_exact(r).to_string()).collect();
+                if survivors && dropped {
+                    if sr.tagged && rights.len() >= 2 {
+                        tags.push("nt:stream-state".into());
+                    } else if !sr.tagged {
+                        tags.push("nt:stream-static-mixed".into());
+                    }
+                }
+            }
+        }
+        tags
     }
     fn extra_stats(&self, evaluated: &[Evaluated]) -> serde_json::Value {
         let mut typed = 0usize;
@@ -787,7 +1312,16 @@ impl Prop for C07 {
                 }
             }
         }
+        let streams = evaluated.iter().filter(|e| e.tags.iter().any(|t| t == "streams")).count();
+        let stream_contexts: usize = evaluated
+            .iter()
+            .filter(|e| e.tags.iter().any(|t| t == "streams"))
+            .filter_map(|e| parse_stream(&e.request))
+            .map(|sr| sr.pairs.len())
+            .sum();
         serde_json::json!({
+            "streams_through_one_stage_call": streams,
+            "contexts_in_streams": stream_contexts,
             "typed_requests_checked_against_definition": typed,
             "typed_list_ordering_requests": list_ordering,
             "untyped_requests_correspondence_only": untyped,
